@@ -23,12 +23,16 @@ func init() {
 		checkTreeHandedOver(r, prog, a, "c03")
 		r.importing = "C18"
 		checkOptionConstructors(r, prog, "c18") // no state is carried from one operand's evaluation to the next through the options
+		r.importing = "C04"
+		checkRegexpSource(r, prog, a, "c04") // an operand means the same on either side of a connective: its pattern is prepared the same way wherever it stands
 		r.importing = "C06"
 		checkQuantifier(r, prog, a, "c06") // … nor through bindings left behind by a quantified operand: each element gets its own list
 		r.importing = ""
 		if g := loadGrammars(r, prog); g != nil {
 			r.importing = "C15"
 			checkBinaryActions(r, NewGA(prog, g.Tab), "c15") // the node evaluated has the two operands that were written
+			r.importing = "C15"
+			checkAnchoring(r, NewGA(prog, g.Tab)) // the whole text is the expression: nothing after a leading group is dropped
 			r.importing = "C16"
 			checkExposure(r, NewGA(prog, g.Tab)) // … grouped as written: the operand of `not` is what follows it, not the conjunction it stands in
 			r.importing = ""
